@@ -274,6 +274,8 @@ func (v *ViewPort) Resize(x, y, width, height int) {
 
 	v.width = width
 	v.height = height
+	// a larger window may no longer fit at the old offset
+	v.ValidateView()
 }
 
 // SetView is called during setup, to provide the parent View.
